@@ -5,19 +5,19 @@ From S2T Require Import C15.Model.
 
 (* pdf_extractor._patched_build_char_map, statement skeleton *)
 Definition skeleton : list instr :=
-  [ReadG; Push Local; SetWrap; Yield; RestoreAll Local].
+  [Acquire; IfDepthZero [ReadG; Push Global; SetWrap]; Incr; Release; Yield; Acquire; Decr; IfDepthZero [PopRestoreAll Global]; Release].
 
 Definition patch_targets : nat := 1.
 
-(* _pypdf_aes_fallback._get_round_keys: shape = unlocked *)
-Definition rk_atomic : bool := false.
+(* _pypdf_aes_fallback._get_round_keys: shape = locked *)
+Definition rk_atomic : bool := true.
 Definition round_key_cache_max : nat := 4.
 
-(* pdf_extractor._ttf_get_glyph_features: _FONT_CACHE key = font-only *)
-Definition font_key_has_gids : bool := false.
+(* pdf_extractor._ttf_get_glyph_features: _FONT_CACHE key = keyed *)
+Definition font_key_has_gids : bool := true.
 
-(* pdf_extractor._open_pdf_reader: AES fallback installation = lazy *)
-Definition aes_patch_eager : bool := false.
+(* pdf_extractor._open_pdf_reader: AES fallback installation = eager *)
+Definition aes_patch_eager : bool := true.
 
 (* functools.lru_cache capacities *)
 Definition lru_caps : list nat := [256; 256; 256; 512].
